@@ -7,7 +7,7 @@ from ..ref import P, L, to32, le
 
 REQUIRED = ['seed:corner', 'seed:random', 'msg:len0', 'msg:len128', 'msg:long', 'ctx:0', 'ctx:255', 'ctx:256-refused',
             'ctx:1000-refused', 'keypair:match', 'keypair:mismatch', 'keypair:mismatch-torsion', 'keypair:pkcs8', 'keypair:mismatch-undecodable', 'keypair:serde-64', 'accept:own', 'reject:flip-key', 'reject:flip-msg',
-            'reject:flip-ctx', 'reject:flip-R', 'reject:flip-S', 'hazmat:passthrough', 'batch:own', 'batch:large', 'traits:pure', 'traits:prehash', 'hazmat:mixed-digests']
+            'reject:flip-ctx', 'reject:flip-R', 'reject:flip-S', 'hazmat:passthrough', 'batch:own', 'batch:large', 'traits:pure', 'traits:prehash', 'hazmat:mixed-digests', 'reject:ctx-wrap']
 
 MSG_LENS = [0, 1, 63, 64, 65, 111, 112, 127, 128, 129]
 
@@ -187,6 +187,13 @@ def gen(ctx, size, long_msgs=False):
                     ctx.add('sig.verifyph', Ab.hex(), hx(msg), hx(ctxb[:-1]), sig.hex(), expect=['err', 'err', 'err'],
                             cls='reject:flip-ctx')
                 r = ctx.add('sig.withctx', seed.hex(), hx(ctxb), hx(msg), expect=['ok', sig.hex(), 'T'], cls=cl_)
+            if rng.random() < 0.3:
+                # over-long verification context (documented as a caller error: debug builds assert): 256 more octets after
+                # the signing context make the one-octet length field of dom2 wrap to the signing length; a release build
+                # must still refuse
+                longc = (ctxb or b'') + vals.rb(rng, 256)
+                ctx.add('sig.verifyph', Ab.hex(), hx(msg), hx(longc), sig.hex(), expect=['err', 'err', 'err'], cls='reject:ctx-wrap',
+                        allow_panic=True)
             # hazmat prehashed with chosen 64-byte prehash
             if rng.random() < 0.3:
                 ph2 = vals.rb(rng, 64)
